@@ -16,7 +16,7 @@ from .common import Out, drop_each, with_, REAL_ALL, STUB_ALL
 ID = "C10"
 TIERS = {"quick": {"n": 2600, "chunk": 40}, "thorough": {"n": 60000, "chunk": 150, "wall_cap": 3300}}
 RULE = (
-    "each scenario is a seeded history of 2-7 runs (1 in 10: 8-20; 1 in 25: a burst of 12-17 runs of one group inside one second followed by a later run; 1 in 25: two interleaved callers - a generator run obtained, another whole run performed, then the generator iterated) drawn from {g1,g2} x {new,reused CsvPaths} x 7 run forms, the simulated clock set before each run by a profile "
+    "each scenario is a seeded history of 2-7 runs (1 in 10: 8-20; 1 in 25: a burst of 12-17 runs of one group inside one second followed by a later run; 2 in 25: two interleaved callers - a generator run obtained (and 0-3 lines pulled), another whole run performed - on the same instance too when it is of the other group -, then the generator drained) drawn from {g1,g2} x {new,reused CsvPaths} x 7 run forms, the simulated clock set before each run by a profile "
     "(same second, +1s, +minutes, to 12:59:5x/13:00:0x, to 23:59:5x/00:00:0x, +12h exactly, backward step), 0, 1 ms or 400 ms clock advance per clock read (a run can straddle second boundaries), listdir order permuted; invariants are checked after every run. "
     "Non-trivial = at least two runs of one group, or a reused instance; distinct = distinct sequences of step classes (group, new/reused, serial/by-line, collecting?, clock profile)."
 )
@@ -84,16 +84,22 @@ def generate_interleave(rng):
     when B performs a whole run of the same group; then A iterates.  Both in one clock second or a second apart."""
     t = seams.EPOCH.replace(hour=rng.choice([9, 12, 23]), minute=59, second=rng.choice([57, 59]))
     g = rng.choice(["g1", "g2"])
+    # A may also be part-way through (some lines already pulled; with the two-member group g2 its second member has
+    # then not been set up yet) when B runs
+    progress = rng.choice([0, 0, 1, 2, 3])
+    if progress and rng.random() < 0.7:
+        g = "g2"
     return {
         "kind": "interleave",
+        "a_progress": progress,
         "seed": rng.getrandbits(32),
         "listdir_salt": rng.choice([None, rng.getrandbits(16)]),
         "at": seams.iso(t),
         "group": g,
         "a_method": rng.choice(["next_paths", "next_paths_collect", "next_by_line"]),
         "b_method": rng.choice(ops.METHODS),
-        "b_group": g if rng.random() < 0.8 else ("g2" if g == "g1" else "g1"),
-        "b_same_instance": rng.random() < 0.3,
+        "b_group": g if rng.random() < (0.4 if progress else 0.8) else ("g2" if g == "g1" else "g1"),
+        "b_same_instance": rng.random() < (0.6 if progress else 0.3),
         "gap_s": rng.choice([0, 0, 1]),
         "earlier_run": rng.random() < 0.5,
         "steps": [],
@@ -103,7 +109,7 @@ def generate_interleave(rng):
 def generate(rng, i, tier):
     if i % 25 == 24:
         return generate_burst(rng)
-    if i % 25 == 12:
+    if i % 25 in (12, 6):
         return generate_interleave(rng)
     long = rng.random() < 0.1
     n = rng.randint(8, 20) if long else rng.randint(2, 7)
@@ -153,6 +159,8 @@ def reductions(sc):
             yield with_(sc, b_method="collect_paths")
         if sc["gap_s"]:
             yield with_(sc, gap_s=0)
+        if sc.get("a_progress", 0) > 1:
+            yield with_(sc, a_progress=1)
         return
     for cand in drop_each(sc["steps"], 1):
         yield with_(sc, steps=cand)
@@ -207,6 +215,9 @@ def _execute_interleave(sc):
             seams.SimClock.advance(seconds=1)
         with ops.quiet():
             it = ops.run_iter(cs_a, sc["a_method"], g)  # A: obtained, not iterated
+            for _ in range(sc.get("a_progress", 0)):
+                if next(it, None) is None:
+                    break
         cs_b = cs_a if sc["b_same_instance"] and sc["b_group"] != g else ops.new_csvpaths()
         ops.run_group(cs_b, sc["b_method"], sc["b_group"])  # B: a whole run in between
         out.runs += 1
@@ -222,21 +233,22 @@ def _execute_interleave(sc):
         out.fault("interleaved_callers")
         after = W.tree_hashes("archive")
         adir = ops.results_of(cs_a, g)[0].run_dir
-        where = f"A={sc['a_method']}({g}) obtained, B={sc['b_method']}({sc['b_group']}) ran ({'same' if cs_b is cs_a else 'other'} instance), then A iterated {sc['gap_s']}s later"
+        where = f"A={sc['a_method']}({g}) obtained, B={sc['b_method']}({sc['b_group']}) ran ({'same' if cs_b is cs_a else 'other'} instance), then A iterated {sc['gap_s']}s later (A had pulled {sc.get('a_progress', 0)} line(s) before B)"
         if os.path.dirname(adir) != os.path.join("archive", g):
             out.v("wrong_group_dir", f"{where}: A wrote to {adir}, not under archive/{g}/", reused=False)
         for who, gg, d in dirs:
             if d == adir:
                 out.v("dir_reused", f"{where}: A used run directory {adir}, already used by run {who}", reused=cs_b is cs_a, same_second=sc["gap_s"] == 0, interleaved=True)
         for p, h in before.items():
-            if p != os.path.join("archive", "manifest.json") and after.get(p) != h:
+            if p != os.path.join("archive", "manifest.json") and after.get(p) != h and not p.startswith(adir + os.sep):
                 out.v("earlier_run_modified", f"{where}: iterating A {'removed' if p not in after else 'changed'} {p}, a file of an earlier run", reused=cs_b is cs_a, interleaved=True)
                 break
         for p in after:
             if p not in before and not p.startswith(adir + os.sep) and p != os.path.join("archive", "manifest.json"):
                 out.v("wrote_outside_run_dir", f"{where}: iterating A created {p} outside its run directory {adir}", reused=cs_b is cs_a)
                 break
-        out.sig = ["interleave", sc["a_method"], sc["b_method"], sc["b_group"] == g, cs_b is cs_a, sc["gap_s"], bool(sc.get("earlier_run"))]
+        out.sig = ["interleave", sc["a_method"], sc["b_method"], sc["b_group"] == g, cs_b is cs_a, sc["gap_s"], bool(sc.get("earlier_run")), sc.get("a_progress", 0), g]
+        out.probe("a run performed on the same instance while a two-member generator run was part-way through", cs_b is cs_a and g == "g2" and sc.get("a_progress", 0) > 0)
         out.nontrivial = True
         out.probe("a run performed between obtaining and iterating a generator run of the same group", sc["b_group"] == g)
         out.log(adir, bdir, sorted(p for p in after if p not in before), len(out.violations))
